@@ -725,8 +725,19 @@ impl BitVector {
         start: usize,
         end: usize,
     ) -> Result<()> {
+        if start == end {
+            // empty range: nothing to combine (and `end - 1` below must not underflow)
+            return Ok(());
+        }
+
         let start_block = start / BITS_PER_BLOCK;
         let end_block = (end - 1) / BITS_PER_BLOCK;
+
+        // The loops below combine whole 64-bit words. Remember the first and the last word so that the
+        // bits outside [start, end) can be put back afterwards: like the scalar fallback, the operation
+        // must not touch them (in particular the unused bits after `len` have to stay 0).
+        let first_old = self.blocks[start_block];
+        let last_old = self.blocks[end_block];
 
         // Process blocks using AVX2 (4 u64s at a time)
         let avx2_blocks = 4;
@@ -767,6 +778,15 @@ impl BitVector {
                 BitwiseOp::Xor => self.blocks[block_idx] ^= other.blocks[block_idx],
             }
             block_idx += 1;
+        }
+
+        // Restore the bits below `start` in the first word and the bits from `end` on in the last word.
+        let head_mask = (1u64 << (start % BITS_PER_BLOCK)) - 1;
+        self.blocks[start_block] = (self.blocks[start_block] & !head_mask) | (first_old & head_mask);
+        let tail_bits = end % BITS_PER_BLOCK;
+        if tail_bits > 0 {
+            let tail_mask = !0u64 << tail_bits;
+            self.blocks[end_block] = (self.blocks[end_block] & !tail_mask) | (last_old & tail_mask);
         }
 
         Ok(())
